@@ -82,7 +82,7 @@ Fixpoint err_val (e : err) : val :=
   | EVerification c => VC "Verification" [err_val c]
   | EMissingSignature => VC "MissingSignature" []
   | ESaml m => VC "Saml" [VS m]
-  | EOther w => VC "Other" [VS w]
+  | EOther _ => VC "Other" []   (* the label is model-side only: dependency errors are compared by class *)
   end.
 
 Definition res_val {A} (f : A -> val) (r : res A) : val :=
